@@ -1223,6 +1223,8 @@ def run(repo: Repo, rep):
                                  why="a sampler that ignores n_points / density / filter_fn / params-related arguments returns another number of rows than requested")
     from .c15 import r1b_no_cache  # a non-static sampler that serves stored points returns the rows of an earlier call: they belong to that call's parameter rows, not to this one's
     r1b_no_cache(repo, rep)
+    from .c12 import r1_pairing  # rows i*n .. (i+1)*n-1 carry parameter row i UNCHANGED: attaching the repeated parameters must not cast or re-order their columns
+    r1_pairing(repo, rep)
     r12_interval_boundary_grid(repo, rep)
     r13_operation_grids(repo, rep)
     r14_data_sampler_length(repo, rep)
